@@ -424,6 +424,55 @@ theorem unwrap_raw_wrong (ia : Nat → Bool) (N θ : List Ty) (i : Nat) (a : Ty)
     (Ty.own i).unwraps ia ≠ unwrapIn ia N θ (.own i) := by
   rw [unwrap_param ia N θ i a h, ha]; simp [Ty.unwraps]
 
+/-! ### substitution is a homomorphism: every constructor attribute survives instantiation -/
+
+/-- **subst_preserves_shape** — substituting type arguments never changes the constructor at a non-parameter position
+    nor its attributes (channel direction, array length, variadicity / arity, struct field names, tags, embeddedness —
+    all carried by the attribute code of `con`), and the components are substituted pointwise. -/
+theorem subst_preserves_shape (N θ : List Ty) (t : Ty) (h : t.isParam = false) : (t.substS N θ).root = t.root := by
+  cases t <;> simp_all [Ty.substS, Ty.root, Ty.isParam]
+
+theorem subst_con_components (N θ : List Ty) (g : Nat) (a : Ty) :
+    (Ty.con g a).substS N θ = .con g (a.substS N θ) := rfl
+
+theorem subst_list_pointwise (N θ : List Ty) (h t : Ty) :
+    (Ty.tcons h t).substS N θ = .tcons (h.substS N θ) (t.substS N θ) := rfl
+
+/-- the code's substitution (subst.go as it is) has the same property -/
+theorem subst_preserves_shape_code (N θ : List Ty) (t : Ty) (h : t.isParam = false) : (t.substC N θ).root = t.root := by
+  cases t <;> simp_all [Ty.substC, Ty.root, Ty.isParam]
+
+/-- **subst_identity_commutes** — an instantiated composite type is identical to a concrete spelling `con g' c` exactly
+    when the attributes agree and the substituted components are the concrete components: identity can be decided
+    before or after substitution, attribute by attribute. -/
+theorem subst_identity_commutes (N θ : List Ty) (g g' : Nat) (a c : Ty) :
+    (Ty.con g a).substS N θ = .con g' c ↔ g = g' ∧ a.substS N θ = c := by
+  simp [Ty.substS]
+
+/-- in particular `<-chan T`, `chan<- T` and `chan T` stay three different types in every instantiation -/
+theorem subst_keeps_directions_apart (N θ : List Ty) (a b : Ty) (g g' : Nat) (h : g ≠ g') :
+    (Ty.con g a).substS N θ ≠ (Ty.con g' b).substS N θ := by
+  simp [Ty.substS, h]
+
+/-- full strength for an arbitrary substitution function (NOT a theorem: see the counterexample) -/
+def rebuild_preserves_shape : Prop :=
+  ∀ (N θ : List Ty) (t : Ty), t.isParam = false → (t.substRebuild N θ).root = t.root
+
+/-- **subst_sendrecv_counterexample** — rebuilding a substituted channel with `SendRecv` is not shape preserving:
+    `<-chan T` instantiated with `int` becomes `chan int` … -/
+theorem subst_sendrecv_counterexample : ¬ rebuild_preserves_shape := by
+  intro h
+  have := h [] [.basic 0] (.con dirRecv (.tcons (.own 0) .tnil)) rfl
+  revert this
+  decide
+
+/-- … and is identical to the instantiation of `chan T`, which it must not be (type switches, assertions, `==` on
+    interfaces and map keys then confuse the two) -/
+theorem subst_sendrecv_conflates :
+    (Ty.con dirRecv (.tcons (.own 0) .tnil)).substRebuild [] [.basic 0] = (Ty.con dirBoth (.tcons (.own 0) .tnil)).substRebuild [] [.basic 0] ∧
+    (Ty.con dirRecv (.tcons (.own 0) .tnil)).substS [] [.basic 0] ≠ (Ty.con dirBoth (.tcons (.own 0) .tnil)).substS [] [.basic 0] := by
+  decide
+
 /-! ### the full-strength statement is false of the code: a type declared in a generic function used as a type argument -/
 
 /-- full strength: completeness for every well-scoped program (NOT claimed) -/
